@@ -195,6 +195,11 @@ func triePart(w *vc.Writer, r *vc.Rand) {
 		{[]string{"/{n}:a:b", "/{n}:b", "/k:b:b"}, []string{"/foo:a:b", "/k:b", "/k:b:b", "/k:a:b"}},
 		{[]string{"/{n=p/*}:v", "/p/q:v:v"}, []string{"/p/q:v", "/p/q:v:v", "/p/z:v"}},
 		{[]string{"/", "/:v", "/{n}"}, []string{"/", "/:v", "/:v:v", "/x"}},
+		// a wildcard or a variable EARLIER on the path, then a literal whose tail is the verb
+		{[]string{"/{x}/b:v:v"}, []string{"/foo/b:v", "/foo/b:v:v", "/foo/b", "/b:v"}},
+		{[]string{"/*/b:v:v", "/*/b:v"}, []string{"/foo/b:v", "/foo/b:v:v", "/foo/b"}},
+		{[]string{"/a/{n}/c/b:v:v", "/a/{n}/c/{m}:v"}, []string{"/a/1/c/b:v", "/a/1/c/b:v:v", "/a/1/c/b"}},
+		{[]string{"/{x=p/*}/q/b:v:v"}, []string{"/p/1/q/b:v", "/p/1/q/b:v:v"}},
 	}
 	for _, nc := range named {
 		for order := 0; order < 2; order++ {
